@@ -30,7 +30,7 @@ fn sessions(tier: Tier, seed: u64) -> Vec<Session> {
 /// Accounts whose NAME has a shape a shortcut in hashing or normalising the name would get wrong (the reconnect proof
 /// hashes the name): blanks at either end, runs of blanks, characters bordering the letter ranges, one character.
 fn odd_name_sessions(seed: u64) -> Vec<Session> {
-    sessions_of(vec![("bob ", "pw", "n0"), (" lead", "pw", "n1"), ("a  b", "pw", "n2"), ("pass|zone", "pw", "n3"), ("@a[z`{~", "pw", "n4"), ("z", "pw", "n5"), ("0123456789abcde", "pw", "n6"), ("  ", "pw", "n7"), ("o'brien\"\\", "pw", "n8")], seed)
+    sessions_of(vec![("bob ", "pw", "n0"), (" lead", "pw", "n1"), ("a  b", "pw", "n2"), ("pass|zone", "pw", "n3"), ("@a[z`{~", "pw", "n4"), ("z", "pw", "n5"), ("0123456789abcde", "pw", "n6"), ("  ", "pw", "n7"), ("o'brien\"\\", "pw", "n8"), ("account{1}xy", "pw", "n9"), ("{|}~{|}~{|}~{|}~", "pw", "n10")], seed)
 }
 
 fn sessions_of(specs: Vec<(&str, &str, &str)>, seed: u64) -> Vec<Session> {
@@ -263,6 +263,35 @@ pub fn run(tier: Tier, seed: u64) -> i32 {
     // long fixed histories: one server, and three servers interleaved
     {
         let n = tier.pick(70_000usize, 300_000usize);
+        // runs of consecutive rejected attempts of every length that a "lock out after N failures" limit or a narrow
+        // failure counter would trip over, each followed by an honest attempt that must be accepted
+        {
+            let s = &ss[2];
+            let mut server = s.server.clone();
+            let mut n_run = 0u64;
+            'runs: for (ri, run_len) in [1usize, 2, 3, 7, 8, 15, 16, 31, 32, 63, 64, 65, 127, 128, 255, 256, 257, 1000, 4096, 65_535, 65_536, 65_537].into_iter().enumerate() {
+                for j in 0..run_len {
+                    let ch = *server.reconnect_challenge_data();
+                    let mut junk = [0u8; 20];
+                    junk[j % 20] = 1 + (j % 250) as u8;
+                    let (got, _, _) = with_script(&refmodel::ctr_array::<16>(seed, &format!("c05-run-{ri}-{j}")), || server.verify_reconnection_attempt(ch, junk));
+                    n_run += 1;
+                    if got != Ok(false) && junk != reconnect_proof(&s.user_norm, &ch, &ch, &s.k) {
+                        report.violation(Violation { signature: "C05|failure-run|accepted-wrong-proof".into(), scenario: "failure-runs".into(), replay: json!({"seed": seed, "run_length": run_len, "position": j}), detail: json!({"message": format!("junk attempt {j} of a run of {run_len}: {got:?}")}) });
+                        break 'runs;
+                    }
+                }
+                let ch = *server.reconnect_challenge_data();
+                let (honest, _, _) = with_script(&refmodel::ctr_array::<16>(seed, &format!("c05-run-{ri}-c")), || s.client.calculate_reconnect_values(ch));
+                let ok = honest.ok().map(|h| with_script(&refmodel::ctr_array::<16>(seed, &format!("c05-run-{ri}-s")), || server.verify_reconnection_attempt(h.challenge_data, h.proof)).0);
+                n_run += 1;
+                if ok != Some(Ok(true)) {
+                    report.violation(Violation { signature: "C05|failure-run|rejected-right-proof".into(), scenario: "failure-runs".into(), replay: json!({"seed": seed, "run_length": run_len, "session": s.name}), detail: json!({"message": format!("after {run_len} consecutive rejected attempts the honest client's proof for the challenge on offer is answered with {ok:?}")}) });
+                    break 'runs;
+                }
+            }
+            report.count("failure_run_attempts", n_run);
+        }
         let plans: Vec<Vec<&Session>> = vec![vec![&ss[0]], vec![&ss[0], &ss[1], &ss[2]], vec![&ss[1], &ss[1]]];
         let results: Vec<(usize, Result<u64, String>)> = {
             use rayon::prelude::*;
